@@ -35,10 +35,11 @@ CHECK_DEADLOCK FALSE
 """
 
 
-def gen(rep, tier, kinds, expects, clauses, hashseeds=(0,)):
-    scopes = [(3, 1)] if tier == "quick" else [(4, 1), (2, 2)]
-    if tier == "quick" and expects != ALL_EXPECTS:
-        scopes.append((2, 2))
+def gen(rep, tier, kinds, expects, clauses, hashseeds=(0,), scopes=None):
+    if scopes is None:
+        scopes = [(3, 1)] if tier == "quick" else [(4, 1), (2, 2)]
+        if tier == "quick" and expects != ALL_EXPECTS:
+            scopes.append((2, 2))
     sc = engine.scratch()
     mon = {"truth": [], "rule": [], "writeback": []}
     for maxrows, nkeys in scopes:
